@@ -57,3 +57,20 @@ fn unit_value_after_text_known_finding() {
     // C19 asks for "<UnitAfterText>x<e>1</e>\n</UnitAfterText>"; the pinned tree gives:
     assert_eq!(ind, "<UnitAfterText>x\n  <e>1</e>\n</UnitAfterText>");
 }
+
+/// KNOWN FINDING (recorded, not repaired): a NESTED empty sequence as an item of a sequence field writes nothing, yet the next item
+/// is indented -- right after the text.
+#[derive(Serialize)]
+struct NestedEmptySeq {
+    #[serde(rename = "$text")]
+    t: String,
+    v: Vec<Vec<u32>>,
+}
+#[test]
+fn nested_empty_sequence_known_finding() {
+    let (plain, ind) = both(&NestedEmptySeq { t: "x".into(), v: vec![vec![], vec![1]] });
+    println!("{plain:?}\n{ind:?}");
+    assert_eq!(plain, "<NestedEmptySeq>x<v>1</v></NestedEmptySeq>");
+    // C19 asks for "<NestedEmptySeq>x<v>1</v>\n</NestedEmptySeq>"; the tree gives:
+    assert_eq!(ind, "<NestedEmptySeq>x\n  <v>1</v>\n</NestedEmptySeq>");
+}
